@@ -364,8 +364,14 @@ def _sql_of_expr(fn: Optional[pf.FuncDef], e: ast.expr, depth: int = 0) -> Tuple
     return None, [], 'opaque'
 
 
+_emb_cache: Dict[str, List['Embedded']] = {}
+
+
 def embedded_in(module: pf.Module) -> List[Embedded]:
+    if module.path in _emb_cache:
+        return _emb_cache[module.path]
     out: List[Embedded] = []
+    _emb_cache[module.path] = out
     for node in ast.walk(module.tree):
         if isinstance(node, ast.Call) and isinstance(node.func, ast.Attribute) and node.func.attr in EXEC_METHODS and node.args:
             recv = pf.dotted(node.func.value) or pf.nsrc(node.func.value)
